@@ -24,7 +24,39 @@ def _rec_exec(code, g=None, l=None):
     rec = {"code": code, "g": g, "l": l, "gnames": None, "lnames": None, "pre_l": set(l.keys()) if isinstance(l, dict) else set(), "pre_g": set(g.keys()) if isinstance(g, dict) else set()}
     CAPTURED.append(rec)
     _GIDS.add(id(g))
-    return builtins.exec(code, g, l)
+    try:
+        return builtins.exec(code, g, l)
+    finally:
+        rec["fns"] = _defined_functions(code, l if isinstance(l, dict) else g)
+        # the namespace the library itself keeps filling (builder.globals) vs the one handed to exec
+        bg = l.get("globals") if isinstance(l, dict) else None
+        rec["ns_is_builder_globals"] = (bg is g) if isinstance(bg, dict) else None
+
+
+_DEF_RE = None
+
+
+def _defined_functions(code: str, ns: dict) -> list:
+    """the function objects a generated program has just defined (classmethod/staticmethod unwrapped)"""
+    global _DEF_RE
+    import re
+    if _DEF_RE is None:
+        _DEF_RE = re.compile(r"^def (\w+)\(", re.M)
+    out = []
+    for name in _DEF_RE.findall(code):
+        obj = ns.get(name) if isinstance(ns, dict) else None
+        obj = getattr(obj, "__func__", obj)
+        if isinstance(obj, types.FunctionType):
+            out.append(obj)
+    return out
+
+
+def real_globals(rec) -> dict:
+    """the namespace the generated functions of this program REALLY run in: fn.__globals__"""
+    fns = rec.get("fns") or []
+    if fns:
+        return fns[0].__globals__
+    return rec["g"]
 
 
 def install_capture() -> list[str]:
@@ -74,7 +106,10 @@ def seal(start: int = 0):
     becomes callable)."""
     for rec in CAPTURED[start:]:
         if rec["gnames"] is None:
-            rec["gnames"] = set(rec["g"].keys())
+            names = set(real_globals(rec).keys())
+            for fn in (rec.get("fns") or [])[1:]:
+                names &= set(fn.__globals__.keys())
+            rec["gnames"] = names
             rec["lnames"] = set(rec["l"].keys()) if isinstance(rec["l"], dict) else set()
 
 
@@ -185,7 +220,7 @@ def unresolved_names(rec) -> list[tuple[str, str]]:
         top = compile(rec["code"], "<string>", "exec")
     except SyntaxError as e:
         return []     # reported as SyntaxError by the build
-    g = rec["gnames"] if rec["gnames"] is not None else set(rec["g"].keys())
+    g = rec["gnames"] if rec["gnames"] is not None else set(real_globals(rec).keys())
     l = rec["lnames"] if rec["lnames"] is not None else set()
     for co, depth in code_objects(top):
         for ins in dis.get_instructions(co):
@@ -272,7 +307,7 @@ def unresolved_chains(rec) -> list[str]:
         return out
     v = _Chains()
     v.visit(tree)
-    g = rec["g"]
+    g = real_globals(rec)
     l = rec["l"] if isinstance(rec["l"], dict) else {}
     for root, attrs, in_fn in v.chains:
         if root in g:
@@ -316,8 +351,9 @@ def shadowed_module_roots(rec, module_roots: set) -> list[str]:
         if root in module_roots and attrs and attrs[0][:1].isupper():
             out.append(f"{root}.{attrs[0]} (root is a local name of the generated function)")
     for root, attrs, in_fn in v.chains:
-        if root in module_roots and root in rec["g"] and not isinstance(rec["g"][root], types.ModuleType):
-            out.append(f"{root}.{attrs[0] if attrs else ''} (root is bound to {type(rec['g'][root]).__name__}, not to the module)")
+        rg = real_globals(rec)
+        if root in module_roots and root in rg and not isinstance(rg[root], types.ModuleType):
+            out.append(f"{root}.{attrs[0] if attrs else ''} (root is bound to {type(rg[root]).__name__}, not to the module)")
     return out
 
 
@@ -441,6 +477,9 @@ class SchemaRun:
         self.module = None
         self.errors_seen: dict[str, int] = {}
         self.info: list[str] = []
+        self.reachable = 0
+        self.unknown_fns = 0
+        self.roots: list = []
 
     def finding(self, kind, what, **kw):
         self.findings.append({"kind": kind, "what": what, **kw})
@@ -523,6 +562,8 @@ def run_schema(schema: dict, rng, exercise: int = 40) -> SchemaRun:
             ok, back = sr._call(f"{cls.__name__}.{from_n}", getattr(cls, from_n), wire)
             if ok and to_n == "to_dict":
                 check_identity(sr, d, inst, back)
+            if ok:
+                check_roundtrip(sr, d, inst, back, f"{cls.__name__}.{from_n}", wire)
             if to_n == "to_dict" and isinstance(wire, dict):
                 for p, bad in wire_mutations(rng, wire, exercise):
                     sr._call(f"{cls.__name__}.from_dict", cls.from_dict, bad)
@@ -561,7 +602,10 @@ def run_schema(schema: dict, rng, exercise: int = 40) -> SchemaRun:
             continue
         ok, wire = sr._call(f"{kind}.encode", enc.encode, val)
         if ok:
-            sr._call(f"{kind}.decode", dec.decode, wire)
+            ok2, back = sr._call(f"{kind}.decode", dec.decode, wire)
+            if ok2:
+                check_identity(sr, d, val, back)
+                check_roundtrip(sr, d, val, back, f"{kind}.decode", wire)
         for j in JUNK:
             if kind in ("basic",):
                 sr._call(f"{kind}.decode", dec.decode, j)
@@ -576,13 +620,17 @@ def run_schema(schema: dict, rng, exercise: int = 40) -> SchemaRun:
 
     # ---- static oracle
     static_names_oracle(sr, schema)
+    roots = list(d["ROOTS"]) + [c for c in d.get("CLASSES", []) if isinstance(c, type)]
+    for kind, typ, mk, (dec, enc) in codecs:
+        roots += [dec, enc]
+    reachable_oracle(sr, roots)
     # holder attributes read must exist on the object they are read from (after the build)
     for rec in sr.programs:
         if "CodeBuilder(" in rec["code"]:
             continue    # lazy stub: the attribute it reads is installed by the CodeBuilder call on the line before
         for root, attr in holder_attr_reads(rec):
-            obj = rec["g"].get(root, rec["l"].get(root) if isinstance(rec["l"], dict) else None)
-            if root in ("cls", "self") and root not in rec["g"]:
+            obj = real_globals(rec).get(root, rec["l"].get(root) if isinstance(rec["l"], dict) else None)
+            if root in ("cls", "self") and root not in real_globals(rec):
                 obj = rec["l"].get("cls") if isinstance(rec["l"], dict) else None
             if obj is None:
                 continue
@@ -593,6 +641,82 @@ def run_schema(schema: dict, rng, exercise: int = 40) -> SchemaRun:
     # rendered-name identity: every schema class must be what its rendered name denotes
     check_rendered_identity(sr, d)
     return sr
+
+
+def reachable_generated_functions(roots: list, limit: int = 4000) -> list:
+    """every function object with generated code ('<string>') reachable from the entry points through
+    class / holder / codec attributes, function globals and the attrs registries"""
+    seen, todo, out = set(), list(roots), []
+    while todo and len(seen) < limit:
+        obj = todo.pop()
+        obj = getattr(obj, "__func__", obj) if isinstance(obj, (classmethod, staticmethod)) or isinstance(obj, types.MethodType) else obj
+        if id(obj) in seen:
+            continue
+        seen.add(id(obj))
+        if isinstance(obj, types.FunctionType):
+            if obj.__code__.co_filename == "<string>":
+                out.append(obj)
+                for v in list(obj.__globals__.values()):
+                    if isinstance(v, (types.FunctionType, classmethod, staticmethod, types.MethodType)) or type(v).__name__ == "AttrsHolder":
+                        todo.append(v)
+                    elif isinstance(v, dict) and v and all(type(x).__name__ == "AttrsHolder" for x in v.values()):
+                        todo.extend(v.values())
+                    elif isinstance(v, type) and any(k.startswith("__mashumaro_") for k in vars(v)):
+                        todo.append(v)
+            continue
+        if isinstance(obj, type) or type(obj).__name__ == "AttrsHolder" or (type(obj).__module__ or "").startswith("mashumaro.codecs"):
+            try:
+                items = list(vars(obj).items())
+            except TypeError:
+                items = []
+            for k, v in items:
+                if isinstance(v, (types.FunctionType, classmethod, staticmethod, types.MethodType)) and (
+                        k.startswith(("__mashumaro_", "__unpack_", "__pack_")) or k in ("decode", "encode", "to_dict", "from_dict")
+                        or k.startswith(("to_", "from_"))):
+                    todo.append(v)
+    return out
+
+
+_PRE: set | None = None
+
+
+def _preexisting() -> set:
+    """functions the library generated for its own mixin base classes when it was imported (before capture)"""
+    global _PRE
+    if _PRE is None:
+        import importlib
+        roots = []
+        for mn, cn in (("mashumaro", "DataClassDictMixin"), ("mashumaro.mixins.json", "DataClassJSONMixin"),
+                       ("mashumaro.mixins.orjson", "DataClassORJSONMixin"), ("mashumaro.mixins.msgpack", "DataClassMessagePackMixin"),
+                       ("mashumaro.mixins.yaml", "DataClassYAMLMixin"), ("mashumaro.mixins.toml", "DataClassTOMLMixin")):
+            roots.append(getattr(importlib.import_module(mn), cn))
+        _PRE = {id(fn) for fn in reachable_generated_functions(roots)}
+        _PRE_KEEP.extend(roots)
+    return _PRE
+
+
+_PRE_KEEP: list = []
+
+
+def reachable_oracle(sr: SchemaRun, roots: list):
+    """the property's own quantifier: forall generated function g reachable from the public entry points,
+    forall global name n loaded anywhere in g: n resolves in g.__globals__ (as it is NOW) or builtins"""
+    known = {id(fn) for rec in sr.programs for fn in (rec.get("fns") or [])} | _preexisting()
+    fns = reachable_generated_functions(roots)
+    sr.reachable = len(fns)
+    for fn in fns:
+        if id(fn) not in known and str(fn.__globals__.get("__name__", "")).startswith("mashumaro"):
+            sr.unknown_fns += 1
+            sr.info.append(f"reachable generated function not created by a captured exec: {fn.__qualname__} (module {fn.__module__}, globals __name__={fn.__globals__.get('__name__')!r})")
+        missing = set()
+        for co, depth in code_objects(fn.__code__):
+            for ins in dis.get_instructions(co):
+                if ins.opname in ("LOAD_GLOBAL", "LOAD_NAME") and ins.argval not in fn.__globals__ and ins.argval not in BUILTIN_NAMES:
+                    missing.add(ins.argval)
+        for n in sorted(missing):
+            prog = next((rec["code"] for rec in sr.programs if any(f is fn for f in (rec.get("fns") or []))), "")
+            sr.finding("static-unresolved-name", f"reachable generated function {fn.__name__} loads global {n!r} which is not in its __globals__ nor a builtin",
+                       program=prog, name=n)
 
 
 def static_names_oracle(sr: SchemaRun, schema: dict):
@@ -659,6 +783,20 @@ def check_identity(sr: SchemaRun, d: dict, inst, back):
                 sr.finding("wrong-class-bound", f"field {holder.__name__}.{fn}: annotation {c!r} (id {id(c):#x}) but decoded object is of {type(y)!r} (id {id(type(y)):#x})",
                            entry=f"{holder.__name__}.from_dict", field=fn, ann=c, got=type(y),
                            winner=_winner(d, holder, fn, type(y)))
+
+
+def check_roundtrip(sr: SchemaRun, d: dict, inst, back, entry: str, wire):
+    """for the classes a schema lists in ROUNDTRIP (plain field types, no user code, no lossy option):
+    decode(encode(x)) == x, and of the same class - a silently swallowed error shows up here"""
+    if type(inst) not in d.get("ROUNDTRIP", []):
+        return
+    try:
+        same = type(back) is type(inst) and back == inst
+    except Exception:
+        same = False
+    if not same:
+        sr.finding("roundtrip-mismatch", f"{entry}({_short(wire)[:120]}) returned {_short(back)[:160]} for the encoding of {_short(inst)[:160]}",
+                   entry=entry, input=_short(wire), name=type(inst).__name__)
 
 
 def _winner(d, holder, fn, got) -> str:
